@@ -333,6 +333,59 @@ func (e *Env) RunProperty(id string) int {
 	// ---- wiring facts (assumptions read off the SSA of the current source)
 	wiringBad := []WiringFact{}
 	for _, wf := range spec.Wiring {
+		if wf.Kind == "mapranges" {
+			// coverage guard, not a verdict: the functions of the repository's own packages that range over a Go map are the
+			// audited list (Callee holds it, '|' separated). A range statement appearing elsewhere is a place where iteration
+			// order can reach consensus state and that no harness explores: the run is inconclusive until it is looked at.
+			allowed := map[string]bool{}
+			for _, a := range strings.Split(wf.Callee, "|") {
+				allowed[a] = true
+			}
+			n := 0
+			for _, l := range P.MapRanges() {
+				fn := strings.SplitN(l, "\t", 2)[0]
+				if strings.Contains(l, "_test.go") {
+					continue
+				}
+				n++
+				if !allowed[fn] {
+					problems = append(problems, "UNCOVERED: "+l+" ranges over a Go map and is not in the audited list of C01 (iteration order is not explored there)")
+				}
+			}
+			fmt.Printf("[%s] wiring: %d range-over-map statements in the loaded packages, all within the audited list of %d functions\n", id, n, len(allowed))
+			continue
+		}
+		if wf.Kind == "order" {
+			// in every call of Callee inside Fn, the module named Want[0] comes before the one named Want[1] ("a<b")
+			ab := strings.SplitN(wf.Want, "<", 2)
+			lists, err := P.VariadicStrings(wf.Fn, wf.Callee)
+			if err != nil || len(lists) == 0 {
+				problems = append(problems, fmt.Sprintf("wiring fact not established: module order passed to %s in %s (%v)", wf.Callee, wf.Fn, err))
+				continue
+			}
+			ok := true
+			for _, l := range lists {
+				ia, ib := -1, -1
+				for i, n := range l {
+					if n == ab[0] {
+						ia = i
+					}
+					if n == ab[1] {
+						ib = i
+					}
+				}
+				if ia < 0 || ib < 0 || ia > ib {
+					ok = false
+					fmt.Printf("[%s] wiring: %s is called with %q at position %d and %q at position %d\n", id, wf.Callee, ab[0], ia, ab[1], ib)
+				}
+			}
+			if ok {
+				fmt.Printf("[%s] wiring: %s lists %q before %q\n", id, wf.Callee, ab[0], ab[1])
+			} else {
+				wiringBad = append(wiringBad, wf)
+			}
+			continue
+		}
 		if wf.Kind == "calls" || wf.Kind == "nocall" {
 			cs, err := P.StaticCallees(wf.Fn)
 			if err != nil {
@@ -753,6 +806,10 @@ func wiringNotes(spec *PropSpec) []string {
 	var out []string
 	for _, wf := range spec.Wiring {
 		switch wf.Kind {
+		case "mapranges":
+			out = append(out, "coverage guard read off the SSA of the current source on every run: the only functions of the loaded repository packages that range over a Go map are "+strings.ReplaceAll(wf.Callee, "|", ", ")+" - "+wf.Why)
+		case "order":
+			out = append(out, fmt.Sprintf("wiring fact read off the SSA of the current source on every run: the module list %s passes to %s has %s - %s", wf.Fn, wf.Callee, wf.Want, wf.Why))
 		case "calls", "nocall":
 			out = append(out, fmt.Sprintf("wiring fact read off the SSA of the current source on every run: %s %s %s - %s", wf.Fn, map[string]string{"calls": "calls", "nocall": "never calls"}[wf.Kind], wf.Callee, wf.Why))
 		case "param":
